@@ -1348,11 +1348,47 @@ def skip_empty_gotos(raw):
     return n
 
 
+def close_exhaustive_switches(raw):
+    """A switch on an enum's discriminant whose listed values are all the variants there are cannot take its `otherwise` edge.
+    rustc usually points that edge at an unreachable block, but it may reuse a real one (the `else` of a let-else, the `_` arm
+    of a match that the other arms already exhaust): the edge then looks like a way into that block.  It is given an
+    unreachable block of its own."""
+    n = 0
+    discr_of = {a["path"]: [int(v["discr"]) for v in a["variants"]] for a in raw.get("adts", []) if a.get("kind") == "enum" and all("discr" in v for v in a["variants"])}
+    for body in raw["bodies"]:
+        B = body["blocks"]
+        for bi in range(len(B)):
+            blk = B[bi]
+            t = blk["term"]
+            if t["k"] != "SwitchInt" or t["discr"].get("k") not in ("copy", "move") or t["discr"]["p"]["proj"]:
+                continue
+            if B[t["otherwise"]]["term"]["k"] == "Unreachable" and not B[t["otherwise"]]["stmts"]:
+                continue
+            dl = t["discr"]["p"]["l"]
+            ds = [s for s in blk["stmts"] if s["k"] == "Assign" and s["p"] == {"l": dl, "proj": []} and s["rv"]["k"] == "Discriminant"]
+            if len(ds) != 1:
+                continue
+            rv = ds[0]["rv"]
+            adt = rv.get("adt") or ""
+            if adt.split("::")[-1] in ("Option", "Result", "ControlFlow") and adt.startswith("core::"):
+                allv = list(range(len(rv.get("variants") or [])))
+            else:
+                allv = discr_of.get(adt)
+            if not allv or set(v for v, _tb in t["targets"]) != set(allv):
+                continue
+            B.append({"stmts": [], "term": {"k": "Unreachable", "sp": t["sp"]}, "cleanup": False})
+            t["otherwise"] = len(B) - 1
+            n += 1
+    raw["_closed_switches"] = n
+    return n
+
+
 def lower_adaptors(raw):
     """Rewrite raw["bodies"] in place (idempotent: a lowered call is no longer a call).  -> number of call sites lowered"""
     if raw.get("_lowered"):
         return 0
     canonical_free_fn_paths(raw)
+    close_exhaustive_switches(raw)
     skip_empty_gotos(raw)
     canonical_operands(raw)
     closures = {strip_generics(b["path"]): b for b in raw["bodies"] if b["kind"] == "Closure"}
